@@ -262,9 +262,12 @@ def main(argv=None):
             )
         confirmed = True
         if not args.no_confirm and hasattr(mod, "replay") and v["replay"]:
-            # a violation must reproduce twice from a fresh process
+            # a violation must reproduce from a fresh process: twice in the environment of this run
+            # (same PYTHONHASHSEED), and is additionally tried under another hash seed
+            own = os.environ.get("PYTHONHASHSEED", "0")
+            other = "1" if own != "1" else "2"
             outs = []
-            for hs in ("0", "1"):
+            for hs in (own, own, other):
                 env = dict(os.environ, PYTHONHASHSEED=hs)
                 pr = subprocess.run(
                     [sys.executable, "-m", "vf.runner", pid, "--replay", rp],
@@ -284,8 +287,11 @@ def main(argv=None):
                 confirmed = False
                 print(
                     f"HARNESS-ERROR {pid}: violation {sig} did not reproduce "
-                    f"identically from replay {rp}: {outs}"
+                    f"identically from replay {rp}: {outs[:2]}"
                 )
+            elif f"REPLAY-VIOLATION {sig}" not in outs[2]:
+                print(f"  note: {sig} reproduces with PYTHONHASHSEED={own} (twice) but not with PYTHONHASHSEED={other}: "
+                      f"the behaviour of the code under test depends on hash ordering")
         print(f"  {sig}: {v['message']}")
         if confirmed:
             print(f"VIOLATION property={pid} replay={rp}")
